@@ -206,8 +206,8 @@ output_dtype : {self.output_dtype}
                     input_shape=x.input_shape,
                     output_shape=self.output_shape,
                     eval_fn=lambda z: self(x(z)),
-                    input_dtype=self.input_dtype,
-                    output_dtype=x.output_dtype,
+                    input_dtype=x.input_dtype,
+                    output_dtype=self.output_dtype,
                 )
             raise ValueError(f"Incompatible shapes {self.shape}, {x.shape}.")
 
